@@ -170,3 +170,86 @@ def r13(ctx, prog):
     per = all(res[n_ + 3][0] - res[n_][0] == 4 and res[n_ + 3][1] == res[n_][1] and (enc_len(n_ + 3) or 0) - (enc_len(n_) or 0) == 4 for n_ in range(0, 6))
     ctx.ob('C19.R13', '%s|period' % f.name, per, 'three more bytes: same state, four more characters, on both sides' if per else
            'the walk is not periodic with period 3 bytes / 4 characters: the finite comparison does not extend to every length', where=f.loc(sw['i']))
+
+
+GROW = ('resize', 'reserve', 'push_back', 'emplace_back', 'insert', 'assign', 'shrink_to_fit', 'clear')
+
+
+def r14(ctx, prog):
+    ctx.rule('C19.R14', 'A7 cached pointer freshness: the Serializer writes a std::vector it does not own through the cached pointer start_; every path of extendSize() '
+             'that reports success in vector mode assigns start_ = p_block_->data() after the last operation on *p_block_ that may move its storage — also on the '
+             'path where the serializer itself does not grow the vector, because its owner may have', floor=1)
+    SER = 'tbox::util::Serializer'
+    f = prog.fn1(SER + '::extendSize')
+    refresh = []
+    for st in f.stmts:
+        if st and st['k'] == 'BinaryOperator' and st.get('op') == '=' and (f.field_of(st['ch'][0]) or '').endswith('::start_'):
+            if any(f.stmts[x]['k'] in q.CALL_KINDS and f.stmts[x].get('fn') == 'data' and (f.field_of(f.stmts[x].get('obj')) or '').endswith('::p_block_') for x in f.walk(st['ch'][1])):
+                refresh.append(st)
+    grows = [c for c in f.calls() if c.get('fn') in GROW and c.get('obj') is not None and (f.field_of(c['obj']) or '').endswith('::p_block_')]
+    # success returns of the vector mode: `return true`, or any return not guarded by the raw-mode test
+    rets = []
+    for r in q.returns(f):
+        raw_edge = False
+        for cond, k, b in f.cfg.controlling_branches(q.pt_or_term(f, r)):
+            rel = q.edge_relation(f, cond, k)
+            if rel and rel[1] == '==' and any(x.endswith('kRaw') for x in (rel[0], rel[2])):
+                raw_edge = True
+        if not raw_edge and q.return_const(f, r) != 0:
+            rets.append(r)
+    if not rets or not grows:
+        raise AnalysisBroken('Serializer::extendSize: vector-mode success return / growth call not found (%d/%d)' % (len(rets), len(grows)))
+    rp = q.pts(f, refresh)
+    for r in rets:
+        p_ = q.pt_or_term(f, r)
+        no_refresh = f.cfg.exists_path(f.cfg.entry_point(), p_, avoid=rp)
+        stale = [g for g in grows if f.cfg.exists_path(q.pt(f, g), p_, avoid=rp)]
+        ok = bool(refresh) and not no_refresh and not stale
+        ctx.ob('C19.R14', '%s|return@%s' % (f.name, f.loc(r['i']).split(':')[-1]), ok, 'start_ is re-read from the vector after its last possible reallocation on every path to this return' if ok else
+               ('a path reaches this success return without start_ = p_block_->data(): the next append() stores through whatever address the vector had when the pointer was '
+                'last cached — freed memory once the vector\'s owner has grown it' if no_refresh or not refresh else
+                'p_block_->%s() at %s can move the storage after start_ was cached' % (stale[0].get('fn'), f.loc(stale[0]['i']))), where=f.loc(r['i']))
+
+
+LENIENT = ('std::stoi', 'std::stol', 'std::stoul', 'std::stoll', 'std::stoull', 'std::stof', 'std::stod', 'std::__cxx11::stoi', 'std::__cxx11::stol', 'std::__cxx11::stoul',
+           'std::__cxx11::stoll', 'std::__cxx11::stoull')
+LENIENT_C = ('strtol', 'strtoul', 'strtoll', 'strtoull', 'strtod', 'atoi', 'atol', 'atoll', 'sscanf', 'std::strtol', 'std::strtoul', 'std::atoi')
+DECODER_UNITS = ('http/url.cpp', 'util/string.cpp', 'util/base64.cpp', 'util/scalable_integer.cpp')
+
+
+def lenient_calls(f):
+    out = []
+    for c in f.calls():
+        cal = (c.get('callee') or '').split('<')[0]
+        if cal.startswith(LENIENT) or cal in LENIENT_C:
+            out.append(c)
+    return out
+
+
+def r15(ctx, prog):
+    ctx.rule('C19.R15', 'A9 digits are decoded by the codec\'s own validating converter, never by a lenient library number parser: std::stoi / strtol / sscanf & co. skip leading '
+             'white space, accept a sign and a 0x prefix and report how much they consumed *including* those — "% 7", "%-1", "%+f" would decode instead of failing '
+             '(expected count zero; positive and negative probes in engine/probes.cc are classified on every run)', floor=1)
+    from tbxlint.facts import extract, probe_unit
+    pp = extract([], extra_units=[probe_unit()])
+    got = {g.name.split('::')[-1]: len(lenient_calls(g)) for g in pp.funcs.values() if g.name.startswith('verif_probe::') and g.name.endswith('_hex')}
+    if got != {'lenient_hex': 1, 'strict_hex': 0}:
+        raise AnalysisBroken('lenient-parser detector self-check failed: %s' % got)
+    ctx.ob('C19.R15', 'probes', True, 'detector classified its probes (std::stoi decoder flagged, range-test decoder accepted)')
+    nfun = 0
+    roots = [f for f in prog.funcs.values() if any(f.file.endswith(u) for u in DECODER_UNITS) and f.parent_func is None and
+             any(t in f.short for t in ('Decode', 'HexStrTo', 'HexChar', 'hexChar', 'ParseScalable'))]
+    scope = {}
+    for r_ in roots:
+        scope[r_.key] = r_
+        for g in q.transitive_callees(prog, r_, within=lambda h: any(h.file.endswith(u) for u in DECODER_UNITS)):
+            scope[g.key] = g
+    for f in scope.values():
+        nfun += 1
+        for c in lenient_calls(f):
+            ctx.ob('C19.R15', '%s|%s@%s' % (f.name, (c.get('callee') or '').split('<')[0], f.loc(c['i']).split(':')[-1]), False,
+                   '%s decodes digits with %s(): the parser skips leading white space and accepts a sign (and 0x with base 16) and counts them as consumed, so two bytes that '
+                   'are not a pair of digits — "-1", " 7", "+f" — are accepted and decoded (0xFF, 0x07, 0x0F) instead of failing cleanly'
+                   % (f.short, (c.get('callee') or '').split('<')[0]), where=f.loc(c['i']))
+    if nfun < 8:
+        raise AnalysisBroken('decoders not found in the program (%d functions)' % nfun)
